@@ -10,7 +10,7 @@ ids=$(python3 -c "import json; print(' '.join(c['property_id'] for c in json.loa
 for seed in "${seeds[@]}"; do
   for p in $ids; do
     t0=$(date +%s)
-    VERIF_SEED=$seed ./check.sh $p $tier -no-evidence > $out/$p-$seed.log 2>&1; rc=$?
+    VERIF_SEED=$seed ./check.sh $p $tier -no-evidence ${SWEEP_FLAGS:-} > $out/$p-$seed.log 2>&1; rc=$?
     echo "$p seed=$seed exit=$rc wall=$(( $(date +%s) - t0 ))s known=$(grep -cE '^KNOWN-FINDING' $out/$p-$seed.log) viol=$(grep -cE '^VIOLATION' $out/$p-$seed.log); $(grep -E '^C[0-9]+ (quick|thorough):' $out/$p-$seed.log | cut -c1-90 | head -1)" | tee -a $out/summary.txt
   done
 done
